@@ -68,6 +68,10 @@ PlanA == [s \in {100, 101, 0} |->
 PlanB == [s \in {100, 0} |->
             IF s = 100 THEN <<[d |-> 2, f |-> 0], [d |-> 2, f |-> 0], [d |-> 0, f |-> FORCE + FAIL_DIRECT]>>
             ELSE <<[d |-> 1, f |-> SELF_DIRECT]>>]
+PlanC == [s \in {100, 101, 0} |->
+            IF s = 100 THEN <<[d |-> 1, f |-> 0], [d |-> 1, f |-> FAIL_DIRECT], [d |-> 2, f |-> 0]>>
+            ELSE IF s = 101 THEN <<[d |-> 1, f |-> FORCE], [d |-> 2, f |-> 0]>>
+            ELSE <<[d |-> 0, f |-> SELF_DIRECT]>>]
 Quiescent == AllSent /\ Drained
 NoLossAtQuiescence == Quiescent /\ stopped = 0 => \A i \in DOMAIN ret : ret[i] = 0 => Cardinality(RanOf(i)) = 1
 =============================================================================
